@@ -110,8 +110,10 @@ class LockEngine(Engine):
       elif r < 0.58:
         v = ginm.gen_plain(rng, 1)
         x = rng.random()
-        if x < 0.12:
+        if x < 0.08:
           v = ['macro', rng.choice(['mm', 'nn', 'gin.REQUIRED'])]
+        elif x < 0.12:
+          v = ['ref', [rng.choice(['mm', 'nn'])], rng.choice(['macro', 'gin.macro']), True]   # %mm spelled as a reference
         elif x < 0.18:
           v = ['ref', [], 'gin.macro', False]
         elif x < 0.24:
